@@ -510,8 +510,27 @@ class ShimModule:
         return getattr(self._real, name)
 
 
+# Objects are cooperative only when they are created during a scheduled execution.  A driver that also
+# has a free-running part (real threads, no scheduler) keeps the shim modules installed: whatever is
+# created there must be the real primitive - a cooperative lock outside the scheduler excludes nobody.
+def _lock():
+    return CoLock() if _ACTIVE is not None else threading.Lock()
+
+
+def _rlock():
+    return CoRLock() if _ACTIVE is not None else threading.RLock()
+
+
+def _condition(lock=None):
+    return CoCondition(lock) if _ACTIVE is not None else threading.Condition(lock)
+
+
+def _event():
+    return CoEvent() if _ACTIVE is not None else threading.Event()
+
+
 def threading_shim():
-    return ShimModule(threading, Lock=CoLock, RLock=CoRLock, Condition=CoCondition, Event=CoEvent)
+    return ShimModule(threading, Lock=_lock, RLock=_rlock, Condition=_condition, Event=_event)
 
 
 def time_shim():
@@ -830,7 +849,7 @@ class CoQueue:
 def queue_shim():
     import queue as real
 
-    return ShimModule(real, Queue=CoQueue, SimpleQueue=CoQueue)
+    return ShimModule(real, Queue=lambda maxsize=0: CoQueue(maxsize) if _ACTIVE is not None else real.Queue(maxsize), SimpleQueue=lambda: CoQueue() if _ACTIVE is not None else real.SimpleQueue())
 
 
 def os_read_shim(real_os=None, extra=None):
